@@ -43,6 +43,9 @@ type Case struct {
 	Path    string `json:"path"`   // plain | pass | fwd | both | health
 	Cookie  string `json:"cookie"` // absent | malformed | behind | equal | ahead1 | far
 	Deliver int    `json:"deliver"` // for ahead1 on a replica: -1 never, else after that many polling intervals
+	// Tracked: "" = the tracked database has transactions; "zero" = it exists (created by the first stream frame
+	// or a file create) but nothing has been applied yet, position 0.
+	Tracked string `json:"tracked,omitempty"`
 }
 
 type Result struct {
@@ -152,8 +155,16 @@ func run1(t *testing.T, c Case) (res Result) {
 			}
 		}
 		P := cl.Nodes["P"]
+		tracked := "db"
+		if c.Tracked == "zero" {
+			tracked = "fresh"
+			if _, err := N.Store.CreateDBIfNotExists(tracked); err != nil {
+				res.Harness = err.Error()
+				return
+			}
+		}
 		curTXID := func() uint64 {
-			if db := N.DB("db"); db != nil {
+			if db := N.DB(tracked); db != nil {
 				return uint64(db.Pos().TXID)
 			}
 			return 0
@@ -191,7 +202,7 @@ func run1(t *testing.T, c Case) (res Result) {
 
 		proxy := lfshttp.NewProxyServer(N.Store)
 		proxy.Target = "app.internal:8080"
-		proxy.DBName = "db"
+		proxy.DBName = tracked
 		proxy.Passthroughs = []*regexp.Regexp{regexp.MustCompile(`^/pass/.*$`)}
 		proxy.AlwaysForward = []*regexp.Regexp{regexp.MustCompile(`^/fwd/.*$`), regexp.MustCompile(`^/pass/fwd$`)}
 		proxy.HTTPTransport = &http.Transport{
@@ -287,7 +298,7 @@ func run1(t *testing.T, c Case) (res Result) {
 				viol("C19/health-forwarded", "the health endpoint was forwarded to the application")
 			}
 		case treatedAsRead:
-			if want > 0 && N.DB("db") != nil {
+			if want > 0 && N.DB(tracked) != nil {
 				if len(reached) > 0 && reached[0].TXID < want {
 					viol("C19/stale-read/"+c.Role+"/"+c.Cookie, "a read carrying cookie TXID %d was forwarded to the application while the local database was at TXID %d", want, reached[0].TXID)
 				}
@@ -317,7 +328,7 @@ func run1(t *testing.T, c Case) (res Result) {
 						cookieTX = uint64(v)
 					}
 				}
-				if !isRead {
+				if !isRead && c.Tracked == "" { // with the tracked database at position 0 the stub's write goes to another database: no position to name
 					if cookieTX == 0 {
 						viol("C19/no-cookie-after-write", "no %s cookie was issued after a proxied write on the primary", lfshttp.TXIDCookieName)
 					} else if cookieTX < stubTX {
@@ -365,13 +376,20 @@ func TestCheck(t *testing.T) {
 					}
 					if ck == "ahead1" && role == "replica" {
 						for _, d := range []int{0, 1, 5, 4999, -1} {
-							cases = append(cases, Case{role, m, p, ck, d})
+							cases = append(cases, Case{Role: role, Method: m, Path: p, Cookie: ck, Deliver: d})
 						}
 						continue
 					}
 					d := -1
-					cases = append(cases, Case{role, m, p, ck, d})
+					cases = append(cases, Case{Role: role, Method: m, Path: p, Cookie: ck, Deliver: d})
 				}
+			}
+		}
+	}
+	for _, role := range []string{"primary", "replica", "orphan"} {
+		for _, m := range []string{"GET", "HEAD", "POST"} {
+			for _, ck := range []string{"absent", "ahead1", "far"} {
+				cases = append(cases, Case{Role: role, Method: m, Path: "plain", Cookie: ck, Deliver: -1, Tracked: "zero"})
 			}
 		}
 	}
@@ -403,7 +421,7 @@ func TestCheck(t *testing.T) {
 		for _, v := range r.V {
 			run.Violation(v.Key, v.What, map[string]any{"case": cases[i]})
 		}
-		classes.Add(fmt.Sprintf("%s/%v/%s/%s=%s", cases[i].Role, cases[i].Method == "GET" || cases[i].Method == "HEAD", cases[i].Path, cases[i].Cookie, r.Class))
+		classes.Add(fmt.Sprintf("%s%s/%v/%s/%s=%s", cases[i].Role, cases[i].Tracked, cases[i].Method == "GET" || cases[i].Method == "HEAD", cases[i].Path, cases[i].Cookie, r.Class))
 		if len(samples) < 8 && i%97 == 0 {
 			samples = append(samples, map[string]any{"case": cases[i], "outcome": r.Class})
 		}
@@ -416,7 +434,7 @@ func TestCheck(t *testing.T) {
 		"distinct_outcome_classes":      classes.N(),
 		"exhaustive":                    true,
 		"samples":                       samples,
-		"rule":                          "every (role x method x path class x cookie relation x delivery timing) request, each on a fresh cluster; the missing transaction for an 'ahead by one' cookie on a replica is delivered after 0, 1, 5 or 4999 polling intervals (1 ms) or never",
+		"rule":                          "every (role x method x path class x cookie relation x delivery timing) request, each on a fresh cluster, plus the plain-path requests against a tracked database that exists at position 0; the missing transaction for an 'ahead by one' cookie on a replica is delivered after 0, 1, 5 or 4999 polling intervals (1 ms) or never",
 	}
 	if classes.N() < 10 && run.NViolations() == 0 {
 		run.HarnessError("vacuous: %d classes", classes.N())
